@@ -792,6 +792,21 @@ Theorem C17_retry_after_decimal :
 Proof. exact retry_after_decimal. Qed.
 Print Assumptions C17_retry_after_decimal.
 
+(* an unusable Retry-After (value <= 0: HTTP-date form, garbage, "0", a negative numeral) is ignored:
+   the backoff is exactly the one of the same answer without the header; and the header is only
+   ever looked at on the status the source names (429) *)
+Theorem C17_retry_after_unusable_ignored :
+  forall guarded oob rnd e attempt c (h : str) ch,
+    (parse_int64 h <= 0 \/ c <> generated_backoff_retry_after_status) ->
+    exp_backoff_gen guarded oob rnd e attempt (OStatus c h ch)
+    = exp_backoff_gen guarded oob rnd e attempt (OStatus c [] ch).
+Proof.
+  intros guarded oob rnd e attempt c h ch [H|H].
+  - exact (retry_after_unusable_ignored guarded oob rnd e attempt c h ch H).
+  - exact (retry_after_only_429 guarded oob rnd e attempt c h ch H).
+Qed.
+Print Assumptions C17_retry_after_unusable_ignored.
+
 (* the premises are met: "120" is a decimal numeral of value 120; an HTTP-date reads as 0;
    a 25-digit numeral saturates *)
 Example ex_retry_after_parse :
